@@ -75,6 +75,32 @@ Proof.
     | intros k r Hr Hk; apply len128_md; [exact Hr | rewrite N.add_0_l; exact Hk] | exact H].
 Qed.
 
+Theorem sha512_224_stream chunks :
+  N.of_nat (length (concat chunks) / 128) < 2^64 ->
+  sha512_224_finish (fold_left sha512_update chunks sha512_224_init) = sha512_224 (concat chunks).
+Proof.
+  intros H. unfold sha512_224_finish, sha512_224. f_equal.
+  apply md_stream with (Lok := fun k => N.of_nat k < 2^64);
+    [lia | lia | reflexivity
+    | intros k r Hr Hk; apply len128_md; [exact Hr | rewrite N.add_0_l; exact Hk] | exact H].
+Qed.
+
+Theorem sha512_256_stream chunks :
+  N.of_nat (length (concat chunks) / 128) < 2^64 ->
+  sha512_256_finish (fold_left sha512_update chunks sha512_256_init) = sha512_256 (concat chunks).
+Proof.
+  intros H. unfold sha512_256_finish, sha512_256. f_equal.
+  apply md_stream with (Lok := fun k => N.of_nat k < 2^64);
+    [lia | lia | reflexivity
+    | intros k r Hr Hk; apply len128_md; [exact Hr | rewrite N.add_0_l; exact Hk] | exact H].
+Qed.
+
+(* the initial values are the ones the standard's IV generation function yields *)
+Theorem sha512t_iv_is_generated :
+  flat_map be64 H512_224 = sha512t_iv_gen [0x53;0x48;0x41;0x2d;0x35;0x31;0x32;0x2f;0x32;0x32;0x34] /\
+  flat_map be64 H512_256 = sha512t_iv_gen [0x53;0x48;0x41;0x2d;0x35;0x31;0x32;0x2f;0x32;0x35;0x36].
+Proof. split; vm_compute; reflexivity. Qed.
+
 (* FIPS 180-4 / RFC 3174 vectors for "abc" *)
 Definition abc : list N := [0x61; 0x62; 0x63].
 Example sha256_abc : sha256 abc =
@@ -100,3 +126,17 @@ Example sha384_abc : sha384 abc =
    0x27;0x2c;0x32;0xab;0x0e;0xde;0xd1;0x63;0x1a;0x8b;0x60;0x5a;0x43;0xff;0x5b;0xed;
    0x80;0x86;0x07;0x2b;0xa1;0xe7;0xcc;0x23;0x58;0xba;0xec;0xa1;0x34;0xc8;0x25;0xa7].
 Proof. vm_compute. reflexivity. Qed.
+
+Example sha512_256_abc : sha512_256 abc =
+  [0x53;0x04;0x8e;0x26;0x81;0x94;0x1e;0xf9;0x9b;0x2e;0x29;0xb7;0x6b;0x4c;0x7d;0xab;
+   0xe4;0xc2;0xd0;0xc6;0x34;0xfc;0x6d;0x46;0xe0;0xe2;0xf1;0x31;0x07;0xe7;0xaf;0x23].
+Proof. vm_compute. reflexivity. Qed.
+Example sha512_224_abc : sha512_224 abc =
+  [0x46;0x34;0x27;0x0f;0x70;0x7b;0x6a;0x54;0xda;0xae;0x75;0x30;0x46;0x08;0x42;0xe2;
+   0x0e;0x37;0xed;0x26;0x5c;0xee;0xe9;0xa4;0x3e;0x89;0x24;0xaa].
+Proof. vm_compute. reflexivity. Qed.
+(* History: before commit 93078f3 src/digest.c started both from H512, i.e. returned a truncated
+   SHA-512, which is not the standard's function. *)
+Example sha512t_before_93078f3 :
+  firstn 32 (sha512 abc) <> sha512_256 abc /\ firstn 28 (sha512 abc) <> sha512_224 abc.
+Proof. split; vm_compute; discriminate. Qed.
